@@ -209,7 +209,7 @@ PROPS = {
     "C14": {
         "id": "C14",
         "title": "Analytic-signal and frequency-translation tools follow their definitions",
-        "rules": ["N1", "N3", "V1", "S2", "R2", "N5", "N6"],
+        "rules": ["N1", "N3", "V1", "S2", "R2", "N5", "N6", "H1"],
         "clause": "the tuner's admissible-frequency test (and every other division of the anchored files) is carried out in real "
                   "arithmetic: every f with |f| <= fs/2 is accepted, also for odd sample rates",
         "not_decided": "hilbert/HilbertFilter numerics and the phase accumulator arithmetic",
